@@ -281,6 +281,11 @@ def _rand_path(P, r, scale):
             d = b - a
             c1 = a + d * complex(r.uniform(0.15, 0.45), r.uniform(-0.35, 0.35))
             c2 = a + d * complex(r.uniform(0.55, 0.85), r.uniform(-0.35, 0.35))
+            if r.random() < 0.12:      # a handle retracted almost, but not exactly, onto its end point
+                if r.random() < 0.5:
+                    c1 = a + (c1 - a) * r.choice([1e-9, 3e-10, 1e-12]) / max(abs(d), 1e-300)
+                else:
+                    c2 = b + (c2 - b) * r.choice([1e-9, 3e-10, 1e-12]) / max(abs(d), 1e-300)
             segs.append(P.CubicBezier(a, c1, c2, b))
     if r.random() < 0.25 and n >= 2:
         # make one joint already smooth: next segment a line continuing the tangent
@@ -356,7 +361,7 @@ def sample(ctx, budget=1.0, hint=None, broken=None):
             pass
     with _NoDisvg(S):
         for it in range(int(ctx.n(70, 700) * budget)):
-            scale = r.choice([1, 1, 10, 0.1])
+            scale = r.choice([1, 1, 10, 0.1, 1e-5, 1e-6])      # incl. small drawings (micrometre-sized coordinates)
             try:
                 if patterns and it < 4 * len(patterns):
                     cl_, tans_ = patterns[it % len(patterns)]
